@@ -53,6 +53,11 @@ def pipelines(seed, root):
         ('transform', ch(src, tr), ['c', 'd', ('c', 'd', 'a')]),
         ('apply', ch(src, {'k': 'apply', 'fns': {'a': 'ap.a'}}), ['a']),
         ('nested-chain', ch(ch(src, tr), {'k': 'apply', 'fns': {'c': 'ap.c'}}), ['c']),
+        # one by-value callable (a partial) behind two edges, both upstream of a persistent cache: the digest depends on the sharing
+        ('apply-shared-partial-disk', ch(src, {'k': 'apply', 'fns': {'a': 'x', 'b': 'x'}, 'partial': 'ap.shared'}, tr,
+                                         {'k': 'disk', 'names': ['c'], 'root': 0}), ['c']),
+        ('apply-shared-partial-columns', ch(src, {'k': 'apply', 'fns': {'a': 'x', 'b': 'x'}, 'partial': 'ap.shared'}, tr,
+                                            {'k': 'columns', 'names': ['c'], 'root': 1, 'shard': 2}), ['c']),
         ('kw-binding', ch(src, kw), ['e']),
         ('merge', ch({'k': 'merge', 'parts': [src, src2]}, tr), ['c', 'ids']),
         ('filter', ch(src, {'k': 'filter', 'f': 'pp', 'args': ['k'], 'table': [[['u'], True], [['v'], False]]}), ['ids', 'a']),
